@@ -9,6 +9,7 @@ import (
 	"os"
 	"testing"
 
+	ledger "github.com/formancehq/ledger/internal"
 	"github.com/formancehq/ledger/verifharness/enginesim"
 	"github.com/formancehq/ledger/verifharness/evid"
 	"pgregory.net/rapid"
@@ -102,6 +103,8 @@ func TestC02(t *testing.T) {
 	cfg.IKPool = nil
 	cfg.RefPool = nil
 	cfg.Crashes = 1 // a restart in the middle changes nothing about what the log may contain
+	cfg.ReadFaults = 1
+	cfg.Cancels = 3 // callers that go away while their request holds locks
 	runProp(t, c, func(rt *rapid.T) {
 		plan := enginesim.GenPlan(rt, cfg)
 		r := runEngine(t, rt, c, plan)
@@ -146,6 +149,7 @@ func TestC05(t *testing.T) {
 	cfg := enginesim.DefaultConfig()
 	cfg.Crashes = 2
 	cfg.Faults = 1
+	cfg.Cancels = 1
 	cfg.SmallBatches = true
 	cfg.DryRunPct = 10
 	cfg.MetaFirstPct = 25
@@ -200,6 +204,8 @@ func TestC07(t *testing.T) {
 	cfg.Crashes = 1
 	cfg.SameIKIdentical = true
 	cfg.RefPool = []string{"", "", "r1"}
+	cfg.ReadFaults = 2
+	cfg.Cancels = 1
 	runProp(t, c, func(rt *rapid.T) {
 		plan := enginesim.GenPlan(rt, cfg)
 		identical := rapid.IntRange(0, 4).Draw(rt, "identicalClass") > 0
@@ -251,6 +257,8 @@ func TestC10(t *testing.T) {
 	cfg.Kinds = []enginesim.OpKind{enginesim.OpCreate, enginesim.OpRevert, enginesim.OpRevert, enginesim.OpRevert}
 	cfg.MaxPerRound = 4
 	cfg.Crashes = 1
+	cfg.ReadFaults = 1
+	cfg.Cancels = 1
 	cfg.IKPool = nil
 	cfg.RefPool = nil
 	runProp(t, c, func(rt *rapid.T) {
@@ -264,7 +272,7 @@ func TestC10(t *testing.T) {
 		perTarget := map[int64][]int{}
 		for i, op := range plan.Ops {
 			if op.Kind == enginesim.OpRevert && r.Responses[i] != nil {
-				perTarget[op.TargetTx] = append(perTarget[op.TargetTx], i)
+				perTarget[r.RevertTargetOf(i)] = append(perTarget[r.RevertTargetOf(i)], i)
 				if op.Force {
 					labels = append(labels, "forced")
 				}
@@ -301,14 +309,20 @@ func TestC10(t *testing.T) {
 
 func TestC11(t *testing.T) {
 	c := evid.New("C11")
-	c.Rule = "histories in which 2-4 creates share a reference (pool of 2 + none): racing (choice lists over exec.ref.taken, the store lookup, the competitor's hand-off, InsertLogs commit and ack), competitor succeeding or failing (insufficient funds, compile error, metadata clash, store fault), later sequential attempts, restart in between. Oracle: <=1 committed transaction per reference; refusals are CONFLICT when the reference was committed before the attempt started; no spurious CONFLICT. Non-trivial = >=2 same-reference requests overlapping; distinct by operations + gate trace."
+	c.Rule = "histories in which 2-4 creates share a reference (pool of 2 + none), some of them previews, with reverts of earlier transactions in between (a reverted transaction keeps its reference): racing (choice lists over exec.ref.taken, the store lookup, the competitor's hand-off, InsertLogs commit and ack), competitor succeeding or failing (insufficient funds, compile error, metadata clash, store fault), later sequential attempts, restart in between. Oracle: <=1 committed transaction per reference; refusals are CONFLICT when the reference was committed before the attempt started; no spurious CONFLICT. Non-trivial = >=2 same-reference requests overlapping; distinct by operations + gate trace."
 	c.Assumptions = []string{engineAssumption}
 	cfg := enginesim.DefaultConfig()
-	cfg.Kinds = []enginesim.OpKind{enginesim.OpCreate, enginesim.OpCreate, enginesim.OpCreate, enginesim.OpSaveMeta}
+	cfg.Kinds = []enginesim.OpKind{enginesim.OpCreate, enginesim.OpCreate, enginesim.OpCreate, enginesim.OpCreate, enginesim.OpSaveMeta, enginesim.OpRevert, enginesim.OpRevert}
+	cfg.MaxRounds = 3
+	cfg.DryRunPct = 20 // previews carrying a reference race the real writes too
+	cfg.RevertByRef = true
+	cfg.RefBurstPct = 20
 	cfg.RefPool = []string{"", "r1", "r1", "r2"}
 	cfg.MaxPerRound = 4
 	cfg.Crashes = 1
 	cfg.Faults = 1
+	cfg.ReadFaults = 2
+	cfg.Cancels = 1
 	cfg.FailingPct = 15
 	cfg.IKPool = []string{"", "", "", "k1"}
 	runProp(t, c, func(rt *rapid.T) {
@@ -337,6 +351,20 @@ func TestC11(t *testing.T) {
 				}
 			}
 		}
+		// a create on a reference whose holder had already been reverted when the create started
+		for ei, e := range r.Store.Entries {
+			if p, ok := e.Log.Data.(ledger.RevertedTransactionLogPayload); ok {
+				for _, e2 := range r.Store.Entries[:ei] {
+					if tx, ok := e2.Log.Data.(ledger.NewTransactionLogPayload); ok && tx.Transaction.ID.Cmp(p.RevertedTransactionID) == 0 && tx.Transaction.Reference != "" {
+						for _, i := range groups[tx.Transaction.Reference] {
+							if r.SpawnStep[i] > e.Step {
+								labels = append(labels, "sameref:after-revert-of-holder")
+							}
+						}
+					}
+				}
+			}
+		}
 		c.Case(enginesim.TraceKey(r), nontrivial, labels, sampleOf(r))
 		reportVerdict(rt, c, enginesim.CheckReferences(r), r)
 	})
@@ -351,6 +379,8 @@ func TestC16(t *testing.T) {
 	cfg.FailingPct = 10
 	cfg.IKPool = []string{"", "", "k1", "k1", "k2"}
 	cfg.SameIKIdentical = true
+	cfg.ReadFaults = 1
+	cfg.Cancels = 1
 	runProp(t, c, func(rt *rapid.T) {
 		plan := enginesim.GenPlan(rt, cfg)
 		// the property speaks about replays: the same request sent again with its key
